@@ -90,8 +90,12 @@ def attr_value_for(rng, name):
         return 'contact-%d' % rng.randrange(5)
     if name == A.CRYPTOGRAPHIC_PARAMETERS:
         return {'block_cipher_mode': E.BlockCipherMode.CBC}
-    if name == A.FRESH:
+    if name in (A.FRESH, A.ALWAYS_SENSITIVE, A.EXTRACTABLE, A.NEVER_EXTRACTABLE):
         return rng.choice((True, False))
+    if name == A.CERTIFICATE_LENGTH:
+        return rng.choice((0, 1, 512, 2 ** 31 - 1))
+    if name == A.ORIGINAL_CREATION_DATE:
+        return 1600000000 + rng.randrange(-5, 50)
     return None
 
 
@@ -103,7 +107,8 @@ SUPPORTED_FACTORY_ATTRS = [A.NAME, A.OBJECT_GROUP, A.APPLICATION_SPECIFIC_INFORM
                            A.PROTECT_STOP_DATE, A.DEACTIVATION_DATE, A.DESTROY_DATE,
                            A.COMPROMISE_OCCURRENCE_DATE, A.ARCHIVE_DATE, A.LAST_CHANGE_DATE,
                            A.LEASE_TIME, A.CONTACT_INFORMATION, A.CRYPTOGRAPHIC_PARAMETERS,
-                           A.FRESH]
+                           A.FRESH, A.COMPROMISE_DATE, A.ALWAYS_SENSITIVE, A.EXTRACTABLE, A.NEVER_EXTRACTABLE,
+                           A.CERTIFICATE_LENGTH, A.ORIGINAL_CREATION_DATE]
 
 
 def rand_attribute(rng, version, index=None, names=None):
@@ -214,11 +219,14 @@ def rand_secret(rng, kind):
 def rand_template_attrs(rng, version, kind=None):
     out = []
     for _ in range(rng.randrange(0, 5)):
-        a = rand_attribute(rng, version, names=[A.NAME, A.OBJECT_GROUP, A.APPLICATION_SPECIFIC_INFORMATION,
-                                               A.CRYPTOGRAPHIC_USAGE_MASK, A.OPERATION_POLICY_NAME,
-                                               A.SENSITIVE, A.CRYPTOGRAPHIC_ALGORITHM,
-                                               A.CRYPTOGRAPHIC_LENGTH, A.STATE, A.CONTACT_INFORMATION,
-                                               A.ACTIVATION_DATE, A.CERTIFICATE_TYPE])
+        names = [A.NAME, A.OBJECT_GROUP, A.APPLICATION_SPECIFIC_INFORMATION, A.CRYPTOGRAPHIC_USAGE_MASK, A.OPERATION_POLICY_NAME,
+                 A.SENSITIVE, A.CRYPTOGRAPHIC_ALGORITHM, A.CRYPTOGRAPHIC_LENGTH, A.STATE, A.CONTACT_INFORMATION,
+                 A.ACTIVATION_DATE, A.CERTIFICATE_TYPE]
+        if rng.random() < 0.1:
+            # attributes few clients put into a template (most of them the server does not store)
+            names = [A.EXTRACTABLE, A.ALWAYS_SENSITIVE, A.NEVER_EXTRACTABLE, A.ORIGINAL_CREATION_DATE, A.DEACTIVATION_DATE,
+                     A.PROCESS_START_DATE, A.FRESH, A.LEASE_TIME, A.COMPROMISE_DATE, A.CERTIFICATE_LENGTH]
+        a = rand_attribute(rng, version, names=names)
         if a is not None:
             out.append(a)
     if rng.random() < 0.12 and version < (2, 0):
@@ -236,7 +244,30 @@ def rand_template_attrs(rng, version, kind=None):
 
 
 def random_op(rng, version, objs, op=None):
-    """Returns (opname, (Operation, payload))."""
+    """Returns (opname, (Operation, payload)).  Now and then the request also carries the fields few clients send:
+    protection storage masks (KMIP 2.0) on the creating operations, the streaming fields of SignatureVerify."""
+    name, built = _random_op(rng, version, objs, op)
+    version = tuple(version)
+    payload = built[1]
+    try:
+        from kmip.core import objects as cobjects
+        if version >= (2, 0) and rng.random() < 0.12:
+            psm = lambda tag: cobjects.ProtectionStorageMasks(
+                protection_storage_masks=[rng.choice((1, 3, 0x100, 0x0300, 0x3FFF)) for _ in range(rng.randrange(1, 3))], tag=tag)
+            if name in ('create', 'register') and hasattr(payload, 'protection_storage_masks'):
+                payload.protection_storage_masks = psm(E.Tags.PROTECTION_STORAGE_MASKS)
+            elif name == 'create_key_pair' and hasattr(payload, 'common_protection_storage_masks'):
+                which = rng.choice(('common', 'private', 'public'))
+                setattr(payload, which + '_protection_storage_masks', psm(E.Tags[which.upper() + '_PROTECTION_STORAGE_MASKS']))
+        if name == 'signature_verify' and rng.random() < 0.15:
+            pick = rng.choice(('digested_data', 'correlation_value', 'init_indicator', 'final_indicator'))
+            setattr(payload, pick, rand_bytes(rng, 20) if pick in ('digested_data', 'correlation_value') else rng.choice((True, False)))
+    except Exception:
+        pass
+    return name, built
+
+
+def _random_op(rng, version, objs, op=None):
     version = tuple(version)
     op = op or rng.choice(OPS)
     if op == 'create':
